@@ -150,3 +150,12 @@ func init() {
 			return sliceClosure(w, dir, "./internal/app", "runTransfer", "acceptOnce", "Verif_acceptOnce")
 		}}}})
 }
+
+var c14store = &PartSpec{Name: "store", Harness: "c14s", Instrument: true, Shards: 6, GoMaxProcs: 1, ModRequires: []string{"github.com/anishathalye/porcupine@v1.3.0"}}
+
+func init() {
+	register("C14", &CheckSpec{Level: "model_checking", Assumptions: []string{
+		"the instant t = expiry is treated as don't-care by the lifetime model",
+		"scripted randomness replaces crypto/rand so that join-code collisions actually occur",
+	}, Parts: []*PartSpec{c14store}})
+}
